@@ -1,7 +1,285 @@
-import AgVerif.Model.Manifest
-namespace AgVerif.C31
-open AgVerif.Axml AgVerif.Manifest
+/-
+C31 — Manifest queries report what the manifest declares.   Property theorems only.
 
-theorem stub : formatValue none [] = [] := by rfl
+Model: AgVerif.Manifest (Model/Manifest.lean) over the abstract XML tree of C26; `completePermissions`, `completeFeatures`,
+`completeLibraries` … are generated from the call sites in androguard/core/apk/__init__.py.
+Spec: AgVerif.Spec.Manifest (`ManifestModel`, `toXml`, Android's class-name completion `complete`).
+Proved on the abstract tree; that the tree is the one encoded in the APK is C26 + zip reading (correspondence and oracle only).
+-/
+import AgVerif.Proof.Manifest
+set_option linter.unusedSimpArgs false
+namespace AgVerif.C31
+open AgVerif.Manifest AgVerif.Spec.Manifest AgVerif.Proof.Manifest AgVerif.Gen.AxmlConsts
+open AgVerif.Axml (Str Node Attr lit)
+
+/-- `_format_value` is Android's name completion: leading dot / no dot / otherwise unchanged -/
+theorem format_value_spec (pkg v : Str) : formatValue (some pkg) v = complete pkg v := by
+  unfold formatValue complete
+  by_cases h0 : v = [] ∨ pkg = []
+  · have : v.isEmpty = true ∨ pkg.isEmpty = true := by
+      rcases h0 with h | h <;> simp [h]
+    simp [h0, this]
+  · have h1 : ¬ (v.isEmpty = true ∨ pkg.isEmpty = true) := by
+      simp only [List.isEmpty_iff]; exact h0
+    simp only [h1, h0, if_false]
+    by_cases hd : v.head? = some 0x2E
+    · simp [(findDot_zero v).2 hd, hd]
+    · by_cases hm : 0x2E ∈ v
+      · have hn : findDot v ≠ none := fun e => (findDot_none v).1 e hm
+        have hz : findDot v ≠ some 0 := fun e => hd ((findDot_zero v).1 e)
+        cases hf : findDot v with
+        | none => exact absurd hf hn
+        | some k =>
+          cases k with
+          | zero => exact absurd hf hz
+          | succ k => simp [hd, hm]
+      · simp [(findDot_none v).2 hm, hd, hm]
+
+/-- without a package (attribute missing) nothing is completed -/
+theorem format_value_no_package (v : Str) : formatValue none v = v := rfl
+
+/-- requested permissions are reported without duplicates … -/
+theorem permissions_nodup (xml : Option Node) : (analyse xml).permissions.Nodup := by
+  simp only [analyse]
+  split
+  · simp
+  · split
+    · simp
+    · exact dedup_nodup _
+
+/-- … and a permission name is never completed with the package name, nor are feature and library names
+    (call sites read from the source: this theorem fails to check on a tree where they are completed) -/
+theorem literal_names_not_completed :
+    completePermissions = false ∧ completeFeatures = false ∧ completeLibraries = false ∧
+    completeActivities = true ∧ completeServices = true ∧ completeReceivers = true ∧ completeProviders = true := by
+  decide
+
+/-- the effective target SDK: target if it is an integer, else (absent or empty) min, else 1; not an integer -> 1 -/
+theorem effective_target_spec (a : Analysis) :
+    (∀ s v, a.sdk attrTargetSdk = .val s → s ≠ [] → pyInt s = .ok v → a.effectiveTarget = some (.ok v)) ∧
+    (∀ s v, a.sdk attrTargetSdk = .none → a.sdk attrMinSdk = .val s → pyInt s = .ok v → a.effectiveTarget = some (.ok v)) ∧
+    (a.sdk attrTargetSdk = .none → a.sdk attrMinSdk = .none → a.effectiveTarget = some (.ok 1)) ∧
+    (∀ s, a.sdk attrTargetSdk = .val s → s ≠ [] → pyInt s = .valueError → a.effectiveTarget = some (.ok 1)) := by
+  refine ⟨?_, ?_, ?_, ?_⟩
+  · intro s v h hs hp
+    have : s.isEmpty = false := by simpa using hs
+    simp [Analysis.effectiveTarget, h, this, hp]
+  · intro s v h hm hp
+    simp [Analysis.effectiveTarget, h, hm, hp]
+  · intro h hm
+    simp [Analysis.effectiveTarget, h, hm]
+  · intro s h hs hp
+    have : s.isEmpty = false := by simpa using hs
+    simp [Analysis.effectiveTarget, h, this, hp]
+
+/-- the main activity: none when no activity is MAIN+LAUNCHER, the completed name when there is one, and otherwise
+    one of the completed names -/
+theorem main_activity_spec (a : Analysis) :
+    (a.mainActivities = [] → a.mainActivity = none) ∧
+    (∀ x, a.mainActivities = [x] → a.mainActivity = some (formatValue a.package x)) ∧
+    (∀ r, a.mainActivity = some r → r ∈ a.mainActivities.map (formatValue a.package)) ∧
+    (a.mainActivities ≠ [] → a.mainActivity ≠ none) := by
+  refine ⟨?_, ?_, ?_, ?_⟩
+  · intro h; simp [Analysis.mainActivity, h]
+  · intro x h; simp [Analysis.mainActivity, h]
+  · intro r h
+    unfold Analysis.mainActivity at h
+    split at h
+    · simp at h
+    · rename_i x hx; simp at h; simp [hx, h]
+    · rename_i xs _ _
+      simp only at h
+      split at h
+      · rename_i g hg
+        simp only [Option.some.injEq] at h; subst h
+        have := minStr_mem _ _ hg
+        simp only [List.mem_filter] at this
+        exact (mem_dedup _ _).1 this.1
+      · exact (mem_dedup _ _).1 (minStr_mem _ _ h)
+  · intro h
+    cases hxs : a.mainActivities with
+    | nil => exact absurd hxs h
+    | cons y ys =>
+      cases ys with
+      | nil => simp [Analysis.mainActivity, hxs]
+      | cons z zs =>
+        simp only [Analysis.mainActivity, hxs]
+        have hne : dedup ((y :: z :: zs).map (formatValue a.package)) ≠ [] := by
+          intro e
+          have : formatValue a.package y ∈ dedup ((y :: z :: zs).map (formatValue a.package)) := by
+            rw [mem_dedup]; simp
+          rw [e] at this; simp at this
+        obtain ⟨m, hm⟩ := minStr_ne_nil _ hne
+        split
+        · simp
+        · rw [hm]; simp
+
+/-! ### queries on the XML of a manifest model -/
+
+/-- the package and the version strings are the declared ones -/
+theorem queries_spec_package (m : ManifestModel) (h : WF m) :
+    (analyse (some (toXml m))).package = some m.package ∧
+    (analyse (some (toXml m))).versionCode = .val m.versionCode ∧
+    (analyse (some (toXml m))).versionName = .val m.versionName := by
+  obtain ⟨hp, hc, hn, _⟩ := h
+  have e1 : m.versionCode.isEmpty = false := by simpa using hc
+  have e2 : m.versionName.isEmpty = false := by simpa using hn
+  refine ⟨?_, ?_, ?_⟩ <;>
+    simp [analyse, toXml, elOf, firstAttrValue, allAttrValues, findTags, attrOr, getAttr, nsAndroid, e1, e2, hc, hn, hp,
+      List.filterMap_cons, List.find?_cons,
+      show (lit attrPackage == lit attrVersionCode) = false by decide,
+      show (lit attrPackage == lit attrVersionName) = false by decide,
+      show (lit attrVersionCode == lit attrVersionName) = false by decide,
+      show (lit attrVersionName == lit attrVersionCode) = false by decide,
+      show (lit attrVersionCode == lit attrPackage) = false by decide,
+      show (lit attrVersionName == lit attrPackage) = false by decide,
+      show (([] : Str) == lit NS_ANDROID_URI) = false by decide,
+      show ((lit NS_ANDROID_URI) == ([] : Str)) = false by decide]
+
+/-! ### queries on the XML of a manifest model (`queries_spec`) -/
+
+theorem root_of_model (m : ManifestModel) : (analyse (some (toXml m))).root = elOf (toXml m) := by
+  simp [analyse, toXml, elOf]
+
+/-- `get_activities()` on the XML of a model: the declared names completed by Android's rule, in document order -/
+theorem queries_spec_activities (m : ManifestModel) (h : WF m) :
+    (analyse (some (toXml m))).activities = m.activities.map (complete m.package) := by
+  have hpk := (queries_spec_package m h).1
+  obtain ⟨_, _, _, hall⟩ := h
+  have hs : ∀ n ∈ m.activities, n ≠ [] := fun n hn => hall n (by simp [hn])
+  unfold Analysis.activities Analysis.components
+  rw [hpk, root_of_model]
+  simp only [toXml, elOf, allAttrValues, findTags, findall, findallNs, List.isEmpty_nil, Bool.true_and,
+    show (lit tagManifest == lit tagActivity) = false by decide, Bool.false_eq_true, if_false,
+    descList_append, descList, descNode, descList_leaves', List.filter_append, List.filter_cons, List.filter_nil,
+    filterNs_leafEls, filter_leafEls_same, filter_leafEls_diff tagUsesPermission tagActivity (by decide), filter_leafEls_diff tagUsesFeature tagActivity (by decide), filter_leafEls_diff tagService tagActivity (by decide), filter_leafEls_diff tagReceiver tagActivity (by decide), filter_leafEls_diff tagProvider tagActivity (by decide), filter_leafEls_diff tagUsesLibrary tagActivity (by decide),
+    show (lit "application" == lit tagActivity) = false by decide,
+    show (([] : Str) == nsAndroid) = false by decide, Bool.false_and, Bool.and_false,
+    List.append_nil, List.nil_append]
+  rw [values_leafEls (some m.package) completeActivities tagActivity m.activities hs]
+  simp [completeActivities, format_value_spec]
+
+/-- `get_services()` on the XML of a model: the declared names completed by Android's rule, in document order -/
+theorem queries_spec_services (m : ManifestModel) (h : WF m) :
+    (analyse (some (toXml m))).services = m.services.map (complete m.package) := by
+  have hpk := (queries_spec_package m h).1
+  obtain ⟨_, _, _, hall⟩ := h
+  have hs : ∀ n ∈ m.services, n ≠ [] := fun n hn => hall n (by simp [hn])
+  unfold Analysis.services Analysis.components
+  rw [hpk, root_of_model]
+  simp only [toXml, elOf, allAttrValues, findTags, findall, findallNs, List.isEmpty_nil, Bool.true_and,
+    show (lit tagManifest == lit tagService) = false by decide, Bool.false_eq_true, if_false,
+    descList_append, descList, descNode, descList_leaves', List.filter_append, List.filter_cons, List.filter_nil,
+    filterNs_leafEls, filter_leafEls_same, filter_leafEls_diff tagUsesPermission tagService (by decide), filter_leafEls_diff tagUsesFeature tagService (by decide), filter_leafEls_diff tagActivity tagService (by decide), filter_leafEls_diff tagReceiver tagService (by decide), filter_leafEls_diff tagProvider tagService (by decide), filter_leafEls_diff tagUsesLibrary tagService (by decide),
+    show (lit "application" == lit tagService) = false by decide,
+    show (([] : Str) == nsAndroid) = false by decide, Bool.false_and, Bool.and_false,
+    List.append_nil, List.nil_append]
+  rw [values_leafEls (some m.package) completeServices tagService m.services hs]
+  simp [completeServices, format_value_spec]
+
+/-- `get_receivers()` on the XML of a model: the declared names completed by Android's rule, in document order -/
+theorem queries_spec_receivers (m : ManifestModel) (h : WF m) :
+    (analyse (some (toXml m))).receivers = m.receivers.map (complete m.package) := by
+  have hpk := (queries_spec_package m h).1
+  obtain ⟨_, _, _, hall⟩ := h
+  have hs : ∀ n ∈ m.receivers, n ≠ [] := fun n hn => hall n (by simp [hn])
+  unfold Analysis.receivers Analysis.components
+  rw [hpk, root_of_model]
+  simp only [toXml, elOf, allAttrValues, findTags, findall, findallNs, List.isEmpty_nil, Bool.true_and,
+    show (lit tagManifest == lit tagReceiver) = false by decide, Bool.false_eq_true, if_false,
+    descList_append, descList, descNode, descList_leaves', List.filter_append, List.filter_cons, List.filter_nil,
+    filterNs_leafEls, filter_leafEls_same, filter_leafEls_diff tagUsesPermission tagReceiver (by decide), filter_leafEls_diff tagUsesFeature tagReceiver (by decide), filter_leafEls_diff tagActivity tagReceiver (by decide), filter_leafEls_diff tagService tagReceiver (by decide), filter_leafEls_diff tagProvider tagReceiver (by decide), filter_leafEls_diff tagUsesLibrary tagReceiver (by decide),
+    show (lit "application" == lit tagReceiver) = false by decide,
+    show (([] : Str) == nsAndroid) = false by decide, Bool.false_and, Bool.and_false,
+    List.append_nil, List.nil_append]
+  rw [values_leafEls (some m.package) completeReceivers tagReceiver m.receivers hs]
+  simp [completeReceivers, format_value_spec]
+
+/-- `get_providers()` on the XML of a model: the declared names completed by Android's rule, in document order -/
+theorem queries_spec_providers (m : ManifestModel) (h : WF m) :
+    (analyse (some (toXml m))).providers = m.providers.map (complete m.package) := by
+  have hpk := (queries_spec_package m h).1
+  obtain ⟨_, _, _, hall⟩ := h
+  have hs : ∀ n ∈ m.providers, n ≠ [] := fun n hn => hall n (by simp [hn])
+  unfold Analysis.providers Analysis.components
+  rw [hpk, root_of_model]
+  simp only [toXml, elOf, allAttrValues, findTags, findall, findallNs, List.isEmpty_nil, Bool.true_and,
+    show (lit tagManifest == lit tagProvider) = false by decide, Bool.false_eq_true, if_false,
+    descList_append, descList, descNode, descList_leaves', List.filter_append, List.filter_cons, List.filter_nil,
+    filterNs_leafEls, filter_leafEls_same, filter_leafEls_diff tagUsesPermission tagProvider (by decide), filter_leafEls_diff tagUsesFeature tagProvider (by decide), filter_leafEls_diff tagActivity tagProvider (by decide), filter_leafEls_diff tagService tagProvider (by decide), filter_leafEls_diff tagReceiver tagProvider (by decide), filter_leafEls_diff tagUsesLibrary tagProvider (by decide),
+    show (lit "application" == lit tagProvider) = false by decide,
+    show (([] : Str) == nsAndroid) = false by decide, Bool.false_and, Bool.and_false,
+    List.append_nil, List.nil_append]
+  rw [values_leafEls (some m.package) completeProviders tagProvider m.providers hs]
+  simp [completeProviders, format_value_spec]
+
+/-- `get_libraries()` on the XML of a model: exactly the declared names (no package completion) -/
+theorem queries_spec_libraries (m : ManifestModel) (h : WF m) :
+    (analyse (some (toXml m))).libraries = m.libraries := by
+  have hpk := (queries_spec_package m h).1
+  obtain ⟨_, _, _, hall⟩ := h
+  have hs : ∀ n ∈ m.libraries, n ≠ [] := fun n hn => hall n (by simp [hn])
+  unfold Analysis.libraries Analysis.components
+  rw [hpk, root_of_model]
+  simp only [toXml, elOf, allAttrValues, findTags, findall, findallNs, List.isEmpty_nil, Bool.true_and,
+    show (lit tagManifest == lit tagUsesLibrary) = false by decide, Bool.false_eq_true, if_false,
+    descList_append, descList, descNode, descList_leaves', List.filter_append, List.filter_cons, List.filter_nil,
+    filterNs_leafEls, filter_leafEls_same, filter_leafEls_diff tagUsesPermission tagUsesLibrary (by decide), filter_leafEls_diff tagUsesFeature tagUsesLibrary (by decide), filter_leafEls_diff tagActivity tagUsesLibrary (by decide), filter_leafEls_diff tagService tagUsesLibrary (by decide), filter_leafEls_diff tagReceiver tagUsesLibrary (by decide), filter_leafEls_diff tagProvider tagUsesLibrary (by decide),
+    show (lit "application" == lit tagUsesLibrary) = false by decide,
+    show (([] : Str) == nsAndroid) = false by decide, Bool.false_and, Bool.and_false,
+    List.append_nil, List.nil_append]
+  rw [values_leafEls (some m.package) completeLibraries tagUsesLibrary m.libraries hs]
+  simp [completeLibraries]
+
+/-- `get_features()` on the XML of a model: exactly the declared names (no package completion) -/
+theorem queries_spec_features (m : ManifestModel) (h : WF m) :
+    (analyse (some (toXml m))).features = m.features := by
+  have hpk := (queries_spec_package m h).1
+  obtain ⟨_, _, _, hall⟩ := h
+  have hs : ∀ n ∈ m.features, n ≠ [] := fun n hn => hall n (by simp [hn])
+  unfold Analysis.features Analysis.components
+  rw [hpk, root_of_model]
+  simp only [toXml, elOf, allAttrValues, findTags, findall, findallNs, List.isEmpty_nil, Bool.true_and,
+    show (lit tagManifest == lit tagUsesFeature) = false by decide, Bool.false_eq_true, if_false,
+    descList_append, descList, descNode, descList_leaves', List.filter_append, List.filter_cons, List.filter_nil,
+    filterNs_leafEls, filter_leafEls_same, filter_leafEls_diff tagUsesPermission tagUsesFeature (by decide), filter_leafEls_diff tagActivity tagUsesFeature (by decide), filter_leafEls_diff tagService tagUsesFeature (by decide), filter_leafEls_diff tagReceiver tagUsesFeature (by decide), filter_leafEls_diff tagProvider tagUsesFeature (by decide), filter_leafEls_diff tagUsesLibrary tagUsesFeature (by decide),
+    show (lit "application" == lit tagUsesFeature) = false by decide,
+    show (([] : Str) == nsAndroid) = false by decide, Bool.false_and, Bool.and_false,
+    List.append_nil, List.nil_append]
+  rw [values_leafEls (some m.package) completeFeatures tagUsesFeature m.features hs]
+  simp [completeFeatures]
+
+/-- `get_permissions()` on the XML of a model: exactly the declared permission names, each once -/
+theorem queries_spec_permissions (m : ManifestModel) (h : WF m) :
+    (analyse (some (toXml m))).permissions = dedup m.permissions ∧
+    ∀ n, n ∈ (analyse (some (toXml m))).permissions ↔ n ∈ m.permissions := by
+  have hpk := (queries_spec_package m h).1
+  obtain ⟨_, _, _, hall⟩ := h
+  have hs : ∀ n ∈ m.permissions, n ≠ [] := fun n hn => hall n (by simp [hn])
+  have e : (analyse (some (toXml m))).permissions = dedup m.permissions := by
+    have hp : (analyse (some (toXml m))).permissions =
+        dedup (allAttrValues (elOf (toXml m)) (analyse (some (toXml m))).package (lit tagUsesPermission) (lit attrName) completePermissions) := by
+      simp [analyse, toXml, elOf]
+    rw [hp, hpk]
+    simp only [toXml, elOf, allAttrValues, findTags, findall, findallNs, List.isEmpty_nil, Bool.true_and,
+    show (lit tagManifest == lit tagUsesPermission) = false by decide, Bool.false_eq_true, if_false,
+    descList_append, descList, descNode, descList_leaves', List.filter_append, List.filter_cons, List.filter_nil,
+    filterNs_leafEls, filter_leafEls_same, filter_leafEls_diff tagUsesFeature tagUsesPermission (by decide), filter_leafEls_diff tagActivity tagUsesPermission (by decide), filter_leafEls_diff tagService tagUsesPermission (by decide), filter_leafEls_diff tagReceiver tagUsesPermission (by decide), filter_leafEls_diff tagProvider tagUsesPermission (by decide), filter_leafEls_diff tagUsesLibrary tagUsesPermission (by decide),
+    show (lit "application" == lit tagUsesPermission) = false by decide,
+    show (([] : Str) == nsAndroid) = false by decide, Bool.false_and, Bool.and_false,
+    List.append_nil, List.nil_append]
+    rw [values_leafEls (some m.package) completePermissions tagUsesPermission m.permissions hs]
+    simp [completePermissions]
+  exact ⟨e, fun n => by rw [e, mem_dedup]⟩
+
+/-! Non-vacuity -/
+example : WF ⟨lit "com.x", lit "7", lit "1.0", [lit "android.permission.INTERNET", lit "WRITE"], [], [lit ".Main"], [lit "Svc"], [], [], []⟩ := by
+  refine ⟨by decide, by decide, by decide, ?_⟩
+  intro n hn
+  simp only [List.append_nil, List.mem_append, List.mem_cons, List.not_mem_nil, or_false] at hn
+  rcases hn with ((rfl | rfl) | rfl) | rfl <;> decide
+example : complete (lit "com.x") (lit ".Main") = lit "com.x.Main" ∧ complete (lit "com.x") (lit "Main") = lit "com.x.Main" ∧
+    complete (lit "com.x") (lit "a.B") = lit "a.B" := by decide
+example : pyInt (lit " 33 ") = .ok 33 ∧ pyInt (lit "Q") = .valueError ∧ pyInt (lit "1_0") = .ok 10 := by decide
 
 end AgVerif.C31
